@@ -1,9 +1,10 @@
 (* Extract.v — extraction of the executable models to OCaml (ExtrOcamlBasic only).
    Run from /verif/ocaml: coqc -Q ../coq Rux ../coq/Extract.v *)
-From Rux Require Import Base Consts Cache Str Norm.
+From Rux Require Import Base Consts Cache Str Norm Writer.
 Require Import ExtrOcamlBasic.
 Extraction "model.ml"
   str_eqb Z.of_nat Z.to_nat
   abort_index any_methods any_match global_vars rest_actions
   inew irun arun
-  format_path simple_fmt_path core reg_path request_path is_fixed_path.
+  format_path simple_fmt_path core reg_path request_path is_fixed_path
+  wrequest spec_status spec_events.
